@@ -95,17 +95,21 @@ pub fn smallvec_from_elem<T: Copy>(elem: T, n: usize) -> (r: Vec<T>)
 // ---- trusted shim: std::io::Read with a ghost byte counter ------------------------------------
 pub trait Read: Sized {
     spec fn consumed(&self) -> nat;
+    /// ghost: number of failures the source has reported so far (C34)
+    spec fn errors(&self) -> nat;
 
     /// `read_exact` fills the whole buffer (consuming exactly that many bytes) or fails
     fn read_exact(&mut self, buf: &mut [u8]) -> (r: IoResult<()>)
         ensures
             final(buf)@.len() == old(buf)@.len(),
-            r is Ok ==> final(self).consumed() == old(self).consumed() + old(buf)@.len();
+            r is Ok ==> final(self).consumed() == old(self).consumed() + old(buf)@.len() && final(self).errors() == old(self).errors(),
+            r is Err ==> final(self).errors() == old(self).errors() + 1;
 
     /// `io::copy(&mut self.by_ref().take(n), &mut out)`: copies until n bytes or end of input
     fn copy_take(&mut self, n: u64) -> (r: IoResult<u64>)
         ensures
-            r is Ok ==> r->Ok_0 <= n && final(self).consumed() == old(self).consumed() + r->Ok_0;
+            r is Ok ==> r->Ok_0 <= n && final(self).consumed() == old(self).consumed() + r->Ok_0 && final(self).errors() == old(self).errors(),
+            r is Err ==> final(self).errors() == old(self).errors() + 1;
 }
 
 // ---- trusted shim: dicom_encoding::decode::BasicDecode -----------------------------------------
@@ -116,11 +120,11 @@ def basic_into(name, ty, size):
     return f'''    fn {name}<S: Read>(&self, source: &mut S, dst: &mut [{ty}]) -> (r: IoResult<()>)
         ensures
             final(dst)@.len() == old(dst)@.len(),
-            r is Ok ==> final(source).consumed() == old(source).consumed() + {size} * old(dst)@.len();
+            r is Ok ==> final(source).consumed() == old(source).consumed() + {size} * old(dst)@.len() && final(source).errors() == old(source).errors();
 '''
 
 PRELUDE2 = r'''    fn decode_tag<S: Read>(&self, source: &mut S) -> (r: IoResult<Tag>)
-        ensures r is Ok ==> final(source).consumed() == old(source).consumed() + 4;
+        ensures r is Ok ==> final(source).consumed() == old(source).consumed() + 4 && final(source).errors() == old(source).errors();
 }
 
 /// `n_times(n).map(|_| basic.decode_tag(&mut from).context(..)).collect()`: n tags of 4 bytes,
@@ -128,15 +132,15 @@ PRELUDE2 = r'''    fn decode_tag<S: Read>(&self, source: &mut S) -> (r: IoResult
 #[verifier::external_body]
 pub fn decode_tags_n<BD: BasicDecode, S: Read>(basic: &BD, from: &mut S, n: usize) -> (r: Result<C<Tag>>)
     ensures
-        r is Ok ==> final(from).consumed() == old(from).consumed() + 4 * n,
+        r is Ok ==> final(from).consumed() == old(from).consumed() + 4 * n && final(from).errors() == old(from).errors(),
 { unimplemented!() }
 
 // ---- trusted shim: dicom_encoding::decode::DecodeFrom (contract proved for the real codecs in C03) ---
 pub trait DecodeFrom<S: Read> {
     fn decode_header(&self, source: &mut S) -> (r: Result<(DataElementHeader, usize)>)
-        ensures r is Ok ==> final(source).consumed() == old(source).consumed() + r->Ok_0.1 && r->Ok_0.1 <= 12;
+        ensures r is Ok ==> final(source).consumed() == old(source).consumed() + r->Ok_0.1 && r->Ok_0.1 <= 12 && final(source).errors() == old(source).errors();
     fn decode_item_header(&self, source: &mut S) -> (r: Result<SequenceItemHeader>)
-        ensures r is Ok ==> final(source).consumed() == old(source).consumed() + 8;
+        ensures r is Ok ==> final(source).consumed() == old(source).consumed() + 8 && final(source).errors() == old(source).errors();
 }
 
 pub trait TextCodec {
@@ -262,6 +266,8 @@ where
     pub open spec fn advanced(old_self: Self, new_self: Self, n: int) -> bool {
         &&& new_self.position as int == old_self.position as int + n
         &&& new_self.from.consumed() as int == old_self.from.consumed() as int + n
+        // C34: success is only reported when the source reported no failure during the call
+        &&& new_self.from.errors() == old_self.from.errors()
     }
 
 /*@fn
@@ -289,7 +295,7 @@ SKIP_REMAINDER = '''
             rem <= 8,
         ensures
             r is Ok ==> final(self).position == old(self).position,
-            r is Ok ==> final(self).from.consumed() == old(self).from.consumed() + rem,
+            r is Ok ==> final(self).from.consumed() == old(self).from.consumed() + rem && final(self).from.errors() == old(self).from.errors(),
 @*/
 '''
 
